@@ -135,8 +135,10 @@ func runC13(c *core.Case) *core.Result {
 		existType = typ
 		X = newClient("X")
 		xd = X.Open(key, typ, mode)
-		if mode == bed.Subscribe {
-			// somebody else must have created it
+		if mode == bed.Subscribe || (mode == bed.SubscribeOrCreate && r.Intn(2) == 1) {
+			// somebody else must have created it (subscribe), or happens to have created it
+			// (subscribe-or-create then subscribes; with a lost first response its retry still
+			// carries both bits)
 			owner = newClient("owner")
 			owner.Open(key, typ, bed.Create)
 			owner.Register()
